@@ -429,6 +429,16 @@ def c15(report, rng, tier, findings):
             atom_e = ('cmp', atom_e[1], atom_e[3], atom_e[2]) if atom_e[1] in ('eq', 'ne') else atom_e
         extra = [gx.atom()] if rng.random() < 0.4 else []
         case = dict(base)
+        if quant == 'an' and rng.random() < 0.3:
+            # the comparison with the sub-query operand is the LEFT side of a disjunction (its false outputs are asked for)
+            other = gx.atom()
+            conj_ = lambda ps: ps[0] if len(ps) == 1 else ('and',) + tuple(ps)     # noqa: E731
+            case.update({'sel': [('var', x)], 'entity': True, 'cond': [('or', atom_i, other)],
+                         'explicit': {**base, 'sel': [('var', x)], 'entity': True,
+                                      'cond': [('or', conj_(list(inner) + [atom_e]), other)]},
+                         'operand_quant': 'an_left_of_a_disjunction'})
+            ocases.append(case)
+            continue
         case.update({'sel': [('var', x)], 'entity': True, 'cond': [atom_i] + extra,
                      'explicit': {**base, 'sel': [('var', x)], 'entity': True, 'cond': inner + [atom_e] + extra},
                      'operand_quant': quant + ('_selecting_an_expression' if shape == 'expr' else '')})
@@ -776,6 +786,17 @@ def c16(report, rng, tier, findings):
             conds = [('and', pc, ec)]
         else:
             conds = [('or', ec, ('cmp', 'eq', E, ('lit', ('i', rng.randint(0, 4)))))]
+        if not cont_el and rng.random() < 0.1:
+            # TWO flattens over the SAME expression object (items = p.items; e1 = flatten(items); e2 = flatten(items)): two
+            # independent unnests - every PAIR of elements of one parent
+            E2 = ('flat', 101, ('attr', 'items', ('var', 0)))
+            sel = rng.choice(([P, E, E2], [E, E2], [E2, P, E]))
+            conds = rng.choice([[], [('cmp', rng.choice(('lt', 'ne', 'eq', 'le')), E, E2)], [pc]])
+            case = {'id': f'c{i}', 'classes': [('A', '-')], 'objs': objs, 'vars': [(0, 'A', raw)], 'quant': 'an',
+                    'sel': sel, 'cond': conds or None, 'entity': False, 'share_terms': True}
+            report.count('two_flattens_over_one_expression_object')
+            cases.append(case)
+            continue
         if cont_el:
             # elements that are containers themselves are not ordered against numbers: no condition, or one on the parent
             conds = rng.choice([[], [pc]])
@@ -1388,6 +1409,16 @@ def c04(report, rng, tier, findings):
             k = rng.randint(1, len(ids)) if empty_var is None else len(ids)
             sel = [('var', v) for v in rng.sample(ids, k)]
             pool.append({'sel': sel, 'cond': cond})
+        if empty_var is None and rng.random() < 0.25:
+            # ONE user predicate applied, in two queries of the pool, to two DIFFERENT values derived from the same
+            # object (x.a and x.plus(d)): what it answered for one must not be remembered for the other
+            X0 = ('var', ids[0])
+            kk, dd = rng.randint(1, 3), rng.randint(1, 3)
+            two = [{'sel': [X0], 'cond': [('pred', 'lt', ('attr', 'a', X0), ('lit', ('i', kk)))]},
+                   {'sel': [X0], 'cond': [('pred', 'lt', ('call', 'plus', (('i', dd),), X0), ('lit', ('i', kk)))]}]
+            rng.shuffle(two)
+            pool = two + pool[:1]
+            report.count('one_predicate_on_two_values_of_one_object')
         if empty_var is None and rng.random() < 0.2:
             # a query that aggregates the objects' own list attributes (the user's lists must stay what they are)
             pool.append({'sel': [('concat', 300, ('attr', 'items', ('var', ids[0])))], 'cond': []})
